@@ -48,7 +48,7 @@ def run(tier):
         outs = drv.batch(["COST\t%s\t%s" % (p0, r[1]) for r in good])
         for r, o in zip(good, outs):
             c["cost-rows"] += 1
-            if o.split() != [str(r[2]), str(r[3]), str(r[4])]:
+            if o.split()[:3] != [str(r[2]), str(r[3]), str(r[4])]:
                 diffs.append({"item": r[0], "push0": p0, "tool": r[2:5], "reference": o})
     c["cost-table-differences"] = len(diffs)
     # ---- emitted blocks: independent cost of output against input, per criterion and split mode
